@@ -5,11 +5,19 @@
 
    Model: Model/Loader.v (LD).  A file is its decoded rows in file order plus its line count; distances
    and coordinates are opaque payloads (D, C).  The specification functions LD.s_* read the network off
-   the row lists with find / filter only - no loader state, no container.  Hypotheses (LD.wf): the
-   documented input format - edge / vertex ids are the row indices, every end point is a listed vertex,
-   a file is a header line plus one line per row, an explicit vertex count is the true one.  Any number
-   of rows, any degree, parallel edges, self loops, isolated vertices; the explicit edge count is arbitrary.
-   What is NOT modelled: CSV / gzip decoding and line counting (exercised on real files by the stream). *)
+   the row lists with find / filter only - no loader state, no container.
+
+   Shape of the statements (since /repo 75c7433 the loader refuses an edge list that references a vertex
+   outside the adjacency):
+     * EVERY SUCCESSFUL LOAD - hypothesis "graph_from_files f ne nv = Ok g", for ANY files and ANY explicit or
+       scanned counts - whose edge ids are the row indices (documented format) exposes exactly the listed
+       topology; no hypothesis on the end points is needed, it follows from Ok.  The vertex statements need
+       the vertex ids to be the row indices.
+     * a pair of files in the documented format (LD.wf_format: ids are row indices, a file is a header line
+       plus one line per row, an explicit n_vertices is the true one) loads iff every end point is a listed
+       vertex, and fails with DatasetError otherwise.
+   Any number of rows, any degree, parallel edges, self loops, isolated vertices; the explicit edge count is
+   arbitrary.  NOT modelled: CSV / gzip decoding and line counting (exercised on real files by the stream). *)
 From Coq Require Import List Arith Bool Permutation String.
 From RC Require Import Base.Res Model.CompactMap Model.Loader Proofs.CompactMap Proofs.Loader.
 Import ListNotations.
@@ -18,102 +26,103 @@ Section C15.
   Context {D C : Type}.
   Notation edge := (LD.edge D).
   Notation vertex := (LD.vertex C).
-  Notation build := (@LD.build D C).
 
-  (* loading succeeds and yields the graph built from the rows with n = number of vertex rows *)
+  (* ---- which files load ---- *)
   Theorem c15_from_files : forall (f : LD.files D C) ne nv, LD.wf f nv ->
     LD.graph_from_files f ne nv
-    = Ok (build (List.length (LD.f_vertex_rows f)) (LD.f_edge_rows f) (LD.f_vertex_rows f)).
+    = Ok (LD.build (List.length (LD.f_vertex_rows f)) (LD.f_edge_rows f) (LD.f_vertex_rows f)).
   Proof. exact from_files_ok. Qed.
+  (* an edge list that references a vertex that is not listed fails to load *)
+  Theorem c15_out_of_range_end_points : forall (f : LD.files D C) ne nv, LD.wf_format f nv ->
+    ~ LD.ends_below (List.length (LD.f_vertex_rows f)) (LD.f_edge_rows f) ->
+    LD.graph_from_files f ne nv = Err "DatasetError"%string.
+  Proof. exact from_files_fails. Qed.
+  (* for any adjacency size n and any rows: the load succeeds iff every end point is below n *)
+  Theorem c15_load_ok_iff : forall n (rows : list edge) (vrows : list vertex) g,
+    LD.load n rows vrows = Ok g <-> g = LD.build n rows vrows /\ LD.ends_below n rows.
+  Proof. exact load_ok_iff. Qed.
+  (* whatever the files and the counts, a graph that loaded has no end point outside its adjacency *)
+  Theorem c15_loaded_end_points : forall (f : LD.files D C) ne nv g,
+    LD.graph_from_files f ne nv = Ok g -> LD.ends_below (List.length (LD.adj g)) (LD.f_edge_rows f).
+  Proof. exact loaded_end_points. Qed.
 
-  (* sizes *)
-  Theorem c15_sizes : forall n (rows : list edge) (vrows : list vertex),
-    List.length (LD.adj (build n rows vrows)) = n /\ List.length (LD.rev (build n rows vrows)) = n
-    /\ LD.n_edges (build n rows vrows) = List.length rows
-    /\ LD.n_vertices (build n rows vrows) = List.length vrows.
-  Proof. exact build_lengths. Qed.
+  (* ---- every successful load ---- *)
+  Section Loaded.
+    Variables (f : LD.files D C) (ne nv : option nat) (g : LD.graph D C).
+    Hypothesis Hload : LD.graph_from_files f ne nv = Ok g.
+    Notation rows := (LD.f_edge_rows f).
+    Notation vrows := (LD.f_vertex_rows f).
 
-  (* every listed edge is retrievable by its id with its source, destination and List.length *)
-  Theorem c15_get_edge_row : forall n (rows : list edge) (vrows : list vertex) i, LD.ids_are_rows rows ->
-    LD.get_edge (build n rows vrows) i = LD.s_edge rows i
-    /\ (forall e, LD.get_edge (build n rows vrows) i = Ok e -> nth_error rows i = Some e /\ LD.e_id e = i).
-  Proof. exact get_edge_row. Qed.
-  Theorem c15_src_dst : forall n (rows : list edge) (vrows : list vertex) i, LD.ids_are_rows rows ->
-    LD.src_vertex_id (build n rows vrows) i = rmap LD.e_src (LD.s_edge rows i)
-    /\ LD.dst_vertex_id (build n rows vrows) i = rmap LD.e_dst (LD.s_edge rows i).
-  Proof. exact src_dst_spec. Qed.
+    Theorem c15_sizes :
+      LD.n_edges g = List.length rows /\ LD.n_vertices g = List.length vrows
+      /\ List.length (LD.rev g) = List.length (LD.adj g)
+      /\ (forall n, nv = Some n -> List.length (LD.adj g) = n)
+      /\ (nv = None -> LD.f_vertex_lines f = S (List.length (LD.adj g))).
+    Proof. exact (loaded_sizes f ne nv g Hload). Qed.
 
-  (* the outgoing edges of a vertex are precisely the listed edges that leave it, the incoming edges
-     precisely those that enter it, in file order, AT ANY DEGREE (C11's refinement is used here: the
-     per-vertex maps are CompactOrderedHashMaps that change representation at 5 entries) *)
-  Theorem c15_out_edges_spec : forall n (rows : list edge) (vrows : list vertex),
-    LD.ids_are_rows rows -> LD.ends_below n rows ->
-    forall v, LD.out_edges (build n rows vrows) v = LD.s_out rows v.
-  Proof. exact out_edges_spec. Qed.
-  Theorem c15_in_edges_spec : forall n (rows : list edge) (vrows : list vertex),
-    LD.ids_are_rows rows -> LD.ends_below n rows ->
-    forall v, LD.in_edges (build n rows vrows) v = LD.s_in rows v.
-  Proof. exact in_edges_spec. Qed.
-  (* the adjacency fields themselves (read through iter()): (edge, other end) pairs *)
-  Theorem c15_adjacency_views : forall n (rows : list edge) (vrows : list vertex),
-    LD.ids_are_rows rows -> LD.ends_below n rows ->
-    forall v, LD.adj_view (build n rows vrows) v = LD.s_adj_view rows v
-              /\ LD.rev_view (build n rows vrows) v = LD.s_rev_view rows v.
-  Proof.
-    intros n rows vrows Hi He v. split.
-    - exact (adj_view_spec n rows vrows Hi He v).
-    - exact (rev_view_spec n rows vrows Hi He v).
-  Qed.
+    (* the adjacency fields read through keys() + get() and len(): the same answers as iter() *)
+    Theorem c15_adjacency_get_len : forall v,
+      let some := map (fun p : nat * nat => (fst p, Some (snd p))) in
+      LD.get_view (LD.adj g) v = some (LD.adj_view g v) /\ LD.get_view (LD.rev g) v = some (LD.rev_view g v)
+      /\ LD.len_view (LD.adj g) v = List.length (LD.adj_view g v)
+      /\ LD.len_view (LD.rev g) v = List.length (LD.rev_view g v).
+    Proof. exact (loaded_get_len f ne nv g Hload). Qed.
 
-  (* ... and read through keys() + get() and len(): the same answers as iter(), for ANY rows *)
-  Theorem c15_adjacency_get_len : forall n (rows : list edge) (vrows : list vertex) v,
-    let some := map (fun p : nat * nat => (fst p, Some (snd p))) in
-    LD.get_view (LD.adj (build n rows vrows)) v = some (LD.adj_view (build n rows vrows) v)
-    /\ LD.get_view (LD.rev (build n rows vrows)) v = some (LD.rev_view (build n rows vrows) v)
-    /\ LD.len_view (LD.adj (build n rows vrows)) v = List.length (LD.adj_view (build n rows vrows) v)
-    /\ LD.len_view (LD.rev (build n rows vrows)) v = List.length (LD.rev_view (build n rows vrows) v).
-  Proof. exact get_len_views_general. Qed.
+    (* each vertex has the listed coordinates *)
+    Theorem c15_vertex_coords : forall i, LD.vids_are_rows vrows ->
+      LD.get_vertex g i = LD.s_vertex vrows i
+      /\ (forall x, LD.get_vertex g i = Ok x -> nth_error vrows i = Some x /\ LD.v_id x = i).
+    Proof. exact (loaded_get_vertex f ne nv g Hload). Qed.
 
-  (* forward and reverse adjacency describe the same edge set, which is the listed one (each row once) *)
-  Theorem c15_adj_rev_same_edge_set : forall n (rows : list edge) (vrows : list vertex),
-    LD.ids_are_rows rows -> LD.ends_below n rows ->
-    Permutation (LD.triples_adj (build n rows vrows)) (LD.triples_rev (build n rows vrows))
-    /\ (forall t, In t (LD.triples_adj (build n rows vrows)) <-> In t (LD.s_triples rows))
-    /\ (forall t, In t (LD.triples_rev (build n rows vrows)) <-> In t (LD.s_triples rows)).
-  Proof. exact adj_rev_same_edge_set. Qed.
-  Theorem c15_adj_is_rows_each_once : forall n (rows : list edge) (vrows : list vertex),
-    LD.ids_are_rows rows -> LD.ends_below n rows ->
-    Permutation (LD.triples_adj (build n rows vrows)) (LD.s_triples rows)
-    /\ Permutation (LD.triples_rev (build n rows vrows)) (LD.s_triples rows).
-  Proof.
-    intros n rows vrows Hi He. split.
-    - exact (triples_adj_perm n rows vrows Hi He).
-    - exact (triples_rev_perm n rows vrows Hi He).
-  Qed.
+    Hypothesis Hids : LD.ids_are_rows rows.
 
-  (* each vertex has the listed coordinates *)
-  Theorem c15_vertex_coords : forall n (rows : list edge) (vrows : list vertex) i, LD.vids_are_rows vrows ->
-    LD.get_vertex (build n rows vrows) i = LD.s_vertex vrows i
-    /\ (forall x, LD.get_vertex (build n rows vrows) i = Ok x -> nth_error vrows i = Some x /\ LD.v_id x = i).
-  Proof. exact vertex_coords. Qed.
+    (* every listed edge is retrievable by its id with its source, destination and length *)
+    Theorem c15_get_edge_row : forall i,
+      LD.get_edge g i = LD.s_edge rows i
+      /\ (forall e, LD.get_edge g i = Ok e -> nth_error rows i = Some e /\ LD.e_id e = i).
+    Proof. exact (loaded_get_edge f ne nv g Hload Hids). Qed.
+    Theorem c15_src_dst : forall i,
+      LD.src_vertex_id g i = rmap LD.e_src (LD.s_edge rows i)
+      /\ LD.dst_vertex_id g i = rmap LD.e_dst (LD.s_edge rows i).
+    Proof. exact (loaded_src_dst f ne nv g Hload Hids). Qed.
 
-  (* derived accessors *)
-  Theorem c15_edge_triplet : forall n (rows : list edge) (vrows : list vertex) i,
-    LD.ids_are_rows rows -> LD.vids_are_rows vrows ->
-    LD.edge_triplet (build n rows vrows) i = LD.s_triplet rows vrows i.
-  Proof. exact edge_triplet_spec. Qed.
-  Theorem c15_incident : forall n (rows : list edge) (vrows : list vertex) v d,
-    LD.ids_are_rows rows -> LD.ends_below n rows ->
-    LD.incident_edges (build n rows vrows) v d = map LD.e_id (LD.s_incident rows v d)
-    /\ LD.incident_triplet_ids (build n rows vrows) v d = Ok (LD.s_triplet_ids rows v d).
-  Proof. exact incident_spec. Qed.
-  Theorem c15_incident_attributes : forall n (rows : list edge) (vrows : list vertex) v d,
-    LD.ids_are_rows rows -> LD.vids_are_rows vrows -> LD.ends_below n rows ->
-    LD.incident_triplet_attributes (build n rows vrows) v d = LD.s_triplet_attributes rows vrows v d.
-  Proof. exact incident_attributes_spec. Qed.
+    (* the outgoing edges of a vertex are precisely the listed edges that leave it, the incoming edges
+       precisely those that enter it, in file order, AT ANY DEGREE (C11's refinement is used here: the
+       per-vertex maps are CompactOrderedHashMaps that change representation at 5 entries) *)
+    Theorem c15_out_edges_spec : forall v, LD.out_edges g v = LD.s_out rows v.
+    Proof. exact (loaded_out_edges f ne nv g Hload Hids). Qed.
+    Theorem c15_in_edges_spec : forall v, LD.in_edges g v = LD.s_in rows v.
+    Proof. exact (loaded_in_edges f ne nv g Hload Hids). Qed.
+    (* the adjacency fields themselves (read through iter()): (edge, other end) pairs *)
+    Theorem c15_adjacency_views : forall v,
+      LD.adj_view g v = LD.s_adj_view rows v /\ LD.rev_view g v = LD.s_rev_view rows v.
+    Proof. exact (loaded_views f ne nv g Hload Hids). Qed.
 
-  (* the property in one statement: a well-formed pair of files loads, and every accessor of the loaded
-     graph answers what the rows say *)
+    (* forward and reverse adjacency ALWAYS describe the same edge set, the listed one (each row once) *)
+    Theorem c15_adj_rev_same_edge_set :
+      Permutation (LD.triples_adj g) (LD.triples_rev g)
+      /\ (forall t, In t (LD.triples_adj g) <-> In t (LD.s_triples rows))
+      /\ (forall t, In t (LD.triples_rev g) <-> In t (LD.s_triples rows)).
+    Proof. exact (loaded_same_edge_set f ne nv g Hload Hids). Qed.
+    Theorem c15_adj_is_rows_each_once :
+      Permutation (LD.triples_adj g) (LD.s_triples rows) /\ Permutation (LD.triples_rev g) (LD.s_triples rows).
+    Proof. exact (loaded_each_once f ne nv g Hload Hids). Qed.
+
+    (* derived accessors *)
+    Theorem c15_incident : forall v d,
+      LD.incident_edges g v d = map LD.e_id (LD.s_incident rows v d)
+      /\ LD.incident_triplet_ids g v d = Ok (LD.s_triplet_ids rows v d).
+    Proof. exact (loaded_incident f ne nv g Hload Hids). Qed.
+    Theorem c15_edge_triplet : LD.vids_are_rows vrows ->
+      forall i, LD.edge_triplet g i = LD.s_triplet rows vrows i.
+    Proof. intros Hv. exact (loaded_triplet f ne nv g Hload Hids Hv). Qed.
+    Theorem c15_incident_attributes : LD.vids_are_rows vrows ->
+      forall v d, LD.incident_triplet_attributes g v d = LD.s_triplet_attributes rows vrows v d.
+    Proof. intros Hv. exact (loaded_incident_attributes f ne nv g Hload Hids Hv). Qed.
+  End Loaded.
+
+  (* the property in one statement: files in the documented format whose end points are listed vertices
+     load, and every accessor of the loaded graph answers what the rows say *)
   Theorem c15_loaded_network : forall (f : LD.files D C) ne nv, LD.wf f nv ->
     let rows := LD.f_edge_rows f in let vrows := LD.f_vertex_rows f in
     exists g, LD.graph_from_files f ne nv = Ok g
@@ -129,61 +138,52 @@ Section C15.
       /\ Permutation (LD.triples_adj g) (LD.triples_rev g)
       /\ Permutation (LD.triples_adj g) (LD.s_triples rows).
   Proof.
-    intros f ne nv Hwf rows vrows. pose proof Hwf as (Hi & Hv & He & _).
-    exists (build (List.length vrows) rows vrows). split; [exact (from_files_ok f ne nv Hwf)|].
+    intros f ne nv Hwf rows vrows. pose proof Hwf as ((Hi & Hv & _) & He).
+    pose proof (from_files_ok f ne nv Hwf) as Hload. fold rows vrows in Hload.
+    exists (LD.build (List.length vrows) rows vrows). split; [exact Hload|].
     destruct (build_lengths (List.length vrows) rows vrows) as (Ha & Hr & Hne & Hnv).
     repeat split; try assumption; intros.
-    - exact (proj1 (get_edge_row _ rows vrows i Hi)).
-    - exact (proj1 (vertex_coords _ rows vrows i Hv)).
-    - exact (out_edges_spec _ rows vrows Hi He v).
-    - exact (in_edges_spec _ rows vrows Hi He v).
-    - exact (adj_view_spec _ rows vrows Hi He v).
-    - exact (rev_view_spec _ rows vrows Hi He v).
-    - exact (edge_triplet_spec _ rows vrows i Hi Hv).
-    - exact (proj1 (adj_rev_same_edge_set _ rows vrows Hi He)).
-    - exact (triples_adj_perm _ rows vrows Hi He).
+    - exact (proj1 (loaded_get_edge f ne nv _ Hload Hi i)).
+    - exact (proj1 (loaded_get_vertex f ne nv _ Hload i Hv)).
+    - exact (loaded_out_edges f ne nv _ Hload Hi v).
+    - exact (loaded_in_edges f ne nv _ Hload Hi v).
+    - exact (proj1 (loaded_views f ne nv _ Hload Hi v)).
+    - exact (proj2 (loaded_views f ne nv _ Hload Hi v)).
+    - exact (loaded_triplet f ne nv _ Hload Hi Hv i).
+    - exact (proj1 (loaded_same_edge_set f ne nv _ Hload Hi)).
+    - exact (proj1 (loaded_each_once f ne nv _ Hload Hi)).
   Qed.
 
-  (* ---- faithful statements outside the hypotheses ---- *)
-  (* any rows at all (duplicate ids, any end points, any adjacency size n): the adjacency of v is the
-     replace-or-append insertion, in file order, of the rows leaving v - for v < n - and empty for v >= n *)
+  (* ---- faithful statements about ids that are not row indices (outside the documented format) ---- *)
+  (* any rows at all (duplicate ids, any adjacency size n): the adjacency state the loader has built when the
+     last row is read is the replace-or-append insertion, in file order, of the rows leaving / entering v -
+     for v < n - and empty for v >= n; retrieval is by ROW POSITION, the id written in the row is not consulted *)
   Theorem c15_any_rows : forall n (rows : list edge) (vrows : list vertex) v,
     let ins_all := fold_left (fun s kv => CM.s_ins Nat.eqb s (fst kv) (snd kv)) in
-    LD.adj_view (build n rows vrows) v = (if Nat.ltb v n then ins_all (LD.s_adj_view rows v) [] else [])
-    /\ LD.rev_view (build n rows vrows) v = (if Nat.ltb v n then ins_all (LD.s_rev_view rows v) [] else [])
-    /\ LD.get_edge (build n rows vrows) v
+    LD.adj_view (LD.build n rows vrows) v = (if Nat.ltb v n then ins_all (LD.s_adj_view rows v) [] else [])
+    /\ LD.rev_view (LD.build n rows vrows) v = (if Nat.ltb v n then ins_all (LD.s_rev_view rows v) [] else [])
+    /\ LD.get_edge (LD.build n rows vrows) v
        = match nth_error rows v with Some e => Ok e | None => Err "EdgeNotFound"%string end
-    /\ LD.get_vertex (build n rows vrows) v
+    /\ LD.get_vertex (LD.build n rows vrows) v
        = match nth_error vrows v with Some x => Ok x | None => Err "VertexNotFound"%string end.
   Proof.
     intros n rows vrows v. cbv zeta. repeat split.
     - exact (adj_view_general n rows vrows v).
     - exact (rev_view_general n rows vrows v).
   Qed.
-  (* out-of-range end points (distinct ids): a row is in the forward adjacency iff its SOURCE is below the
-     adjacency size, in the reverse adjacency iff its DESTINATION is; it stays in `edges` either way and no
-     error is raised (missing_vertices is dropped) *)
-  Theorem c15_out_of_range_end_points : forall n (rows : list edge) (vrows : list vertex) v,
-    NoDup (map LD.e_id rows) ->
-    LD.out_edges (build n rows vrows) v = (if Nat.ltb v n then LD.s_out rows v else [])
-    /\ LD.in_edges (build n rows vrows) v = (if Nat.ltb v n then LD.s_in rows v else [])
-    /\ LD.adj_view (build n rows vrows) v = (if Nat.ltb v n then LD.s_adj_view rows v else [])
-    /\ LD.rev_view (build n rows vrows) v = (if Nat.ltb v n then LD.s_rev_view rows v else []).
-  Proof.
-    intros n rows vrows v Hnd. repeat split.
-    - exact (out_edges_distinct n rows vrows v Hnd).
-    - exact (in_edges_distinct n rows vrows v Hnd).
-    - exact (adj_view_distinct n rows vrows v Hnd).
-    - exact (rev_view_distinct n rows vrows v Hnd).
-  Qed.
   (* the explicit edge count plays no role *)
   Theorem c15_n_edges_irrelevant : forall (f : LD.files D C) k k' nv,
     LD.graph_from_files f (Some k) nv = LD.graph_from_files f (Some k') nv
     /\ (1 <= LD.f_edge_lines f -> LD.graph_from_files f None nv = LD.graph_from_files f (Some k) nv).
   Proof. exact n_edges_irrelevant. Qed.
-  (* the runner's decision "inside the hypotheses" is the hypothesis *)
-  Theorem c15_wfb_wf : forall (f : LD.files D C) nv, LD.wfb f nv = true <-> LD.wf f nv.
-  Proof. exact wfb_wf. Qed.
+  (* the runner's decisions are the hypotheses *)
+  Theorem c15_wfb_wf : forall (f : LD.files D C) nv,
+    (LD.wfb f nv = true <-> LD.wf f nv) /\ (LD.formatb f nv = true <-> LD.wf_format f nv)
+    /\ (forall n, LD.endsb n (LD.f_edge_rows f) = true <-> LD.ends_below n (LD.f_edge_rows f)).
+  Proof.
+    intros f nv. split; [exact (wfb_wf f nv)|]. split; [exact (formatb_format f nv)|].
+    intros n. exact (endsb_ends n _).
+  Qed.
 End C15.
 
 (* per-edge tables are aligned with edge ids by row *)
@@ -221,21 +221,22 @@ Check @c15_loaded_network : forall D C (f : LD.files D C) ne nv, LD.wf f nv ->
       /\ (forall i, LD.edge_triplet g i = LD.s_triplet rows vrows i)
       /\ Permutation (LD.triples_adj g) (LD.triples_rev g)
       /\ Permutation (LD.triples_adj g) (LD.s_triples rows).
-Check @c15_out_edges_spec : forall D C n (rows : list (LD.edge D)) (vrows : list (LD.vertex C)),
-    LD.ids_are_rows rows -> LD.ends_below n rows ->
-    forall v, LD.out_edges (LD.build n rows vrows) v
-              = map LD.e_id (filter (fun e => Nat.eqb (LD.e_src e) v) rows).
-Check @c15_in_edges_spec : forall D C n (rows : list (LD.edge D)) (vrows : list (LD.vertex C)),
-    LD.ids_are_rows rows -> LD.ends_below n rows ->
-    forall v, LD.in_edges (LD.build n rows vrows) v
-              = map LD.e_id (filter (fun e => Nat.eqb (LD.e_dst e) v) rows).
-Check @c15_adj_rev_same_edge_set : forall D C n (rows : list (LD.edge D)) (vrows : list (LD.vertex C)),
-    LD.ids_are_rows rows -> LD.ends_below n rows ->
-    Permutation (LD.triples_adj (LD.build n rows vrows)) (LD.triples_rev (LD.build n rows vrows))
-    /\ (forall t, In t (LD.triples_adj (LD.build n rows vrows))
-                  <-> In t (map (fun e => (LD.e_id e, LD.e_src e, LD.e_dst e)) rows))
-    /\ (forall t, In t (LD.triples_rev (LD.build n rows vrows))
-                  <-> In t (map (fun e => (LD.e_id e, LD.e_src e, LD.e_dst e)) rows)).
+Check @c15_out_edges_spec : forall D C (f : LD.files D C) ne nv g,
+    LD.graph_from_files f ne nv = Ok g -> LD.ids_are_rows (LD.f_edge_rows f) ->
+    forall v, LD.out_edges g v = map LD.e_id (filter (fun e => Nat.eqb (LD.e_src e) v) (LD.f_edge_rows f)).
+Check @c15_in_edges_spec : forall D C (f : LD.files D C) ne nv g,
+    LD.graph_from_files f ne nv = Ok g -> LD.ids_are_rows (LD.f_edge_rows f) ->
+    forall v, LD.in_edges g v = map LD.e_id (filter (fun e => Nat.eqb (LD.e_dst e) v) (LD.f_edge_rows f)).
+Check @c15_adj_rev_same_edge_set : forall D C (f : LD.files D C) ne nv g,
+    LD.graph_from_files f ne nv = Ok g -> LD.ids_are_rows (LD.f_edge_rows f) ->
+    Permutation (LD.triples_adj g) (LD.triples_rev g)
+    /\ (forall t, In t (LD.triples_adj g)
+                  <-> In t (map (fun e => (LD.e_id e, LD.e_src e, LD.e_dst e)) (LD.f_edge_rows f)))
+    /\ (forall t, In t (LD.triples_rev g)
+                  <-> In t (map (fun e => (LD.e_id e, LD.e_src e, LD.e_dst e)) (LD.f_edge_rows f))).
+Check @c15_out_of_range_end_points : forall D C (f : LD.files D C) ne nv, LD.wf_format f nv ->
+    ~ LD.ends_below (List.length (LD.f_vertex_rows f)) (LD.f_edge_rows f) ->
+    LD.graph_from_files f ne nv = Err "DatasetError"%string.
 
 (* ---- non-vacuity: a concrete network inside the hypotheses with a degree-7 hub (past the small-size
    specialisations of the container), parallel edges, a self loop and an isolated vertex ---- *)
@@ -260,22 +261,34 @@ Section Example.
     vm_compute. eexists. eexists. repeat split.
   Qed.
 
-  (* an end point outside the vertex list: the two adjacency directions then disagree (the property's
-     hypothesis "every end point is a listed vertex" is necessary) *)
-  Example c15_out_of_range_views_differ :
-    let g := LD.build 2 [LD.mkEdge 0 0 5 1] [LD.mkVertex 0 0 0; LD.mkVertex 1 1 1] in
-    LD.triples_adj g = [(0, 0, 5)] /\ LD.triples_rev g = [] /\ LD.get_edge g 0 = Ok (LD.mkEdge 0 0 5 1)
-    /\ LD.edge_triplet g 0 = Err "VertexNotFound"%string.
-  Proof. vm_compute. repeat split. Qed.
+  (* an end point outside the vertex list: the load fails (before /repo 75c7433 it succeeded with the edge
+     in adj[0] only); the hypotheses of c15_out_of_range_end_points are satisfiable *)
+  Definition ex_dangling : LD.files nat nat :=
+    LD.mkFiles 2 [LD.mkEdge 0 0 5 1] 3 [LD.mkVertex 0 0 0; LD.mkVertex 1 1 1].
+  Example c15_dangling_end_point_fails :
+    LD.wf_format ex_dangling None
+    /\ ~ LD.ends_below 2 (LD.f_edge_rows ex_dangling)
+    /\ LD.graph_from_files ex_dangling None None = Err "DatasetError"%string
+    /\ LD.triples_adj (LD.build 2 (LD.f_edge_rows ex_dangling) (LD.f_vertex_rows ex_dangling)) = [(0, 0, 5)]
+    /\ LD.triples_rev (LD.build 2 (LD.f_edge_rows ex_dangling) (LD.f_vertex_rows ex_dangling)) = [].
+  Proof.
+    split; [apply c15_wfb_wf; vm_compute; reflexivity|].
+    split; [intros H; apply (proj2 (c15_wfb_wf ex_dangling None)) in H; vm_compute in H; discriminate|].
+    vm_compute. repeat split.
+  Qed.
 
   (* rows not in id order (outside the documented format): retrieval is by ROW, the id is not consulted *)
   Example c15_unsorted_rows_by_position :
     let g := LD.build 2 [LD.mkEdge 0 0 1 1] [LD.mkVertex 1 10 10; LD.mkVertex 0 20 20] in
-    LD.get_vertex g 0 = Ok (LD.mkVertex 1 10 10) /\ LD.s_vertex [LD.mkVertex 1 10 10; LD.mkVertex 0 20 20] 0 = Ok (LD.mkVertex 0 20 20).
+    LD.load 2 [LD.mkEdge 0 0 1 1] [LD.mkVertex 1 10 10; LD.mkVertex 0 20 20] = Ok g
+    /\ LD.get_vertex g 0 = Ok (LD.mkVertex 1 10 10)
+    /\ LD.s_vertex [LD.mkVertex 1 10 10; LD.mkVertex 0 20 20] 0 = Ok (LD.mkVertex 0 20 20).
   Proof. vm_compute. repeat split. Qed.
 End Example.
 
 Print Assumptions c15_from_files.
+Print Assumptions c15_load_ok_iff.
+Print Assumptions c15_loaded_end_points.
 Print Assumptions c15_sizes.
 Print Assumptions c15_get_edge_row.
 Print Assumptions c15_src_dst.
@@ -298,5 +311,5 @@ Print Assumptions c15_tables_aligned.
 Print Assumptions c15_tables_aligned_header.
 Print Assumptions c15_table_all_or_nothing.
 Print Assumptions c15_nonvacuous.
-Print Assumptions c15_out_of_range_views_differ.
+Print Assumptions c15_dangling_end_point_fails.
 Print Assumptions c15_unsorted_rows_by_position.
